@@ -125,6 +125,7 @@ void preload(string file) { rec("PRELOAD " + file); load_object(file); }
 string *epilog(int eflag) { return ({ }); }
 void preload(string file) { }
 #endif
+int valid_bind(object binder, object old_owner, object new_owner) { return 1; }
 void log_error(string file, string msg) { rec("LOGERR " + file + " " + msg); }
 
 #ifndef NO_ERROR_HANDLER
